@@ -100,6 +100,7 @@ inductive Ev
   | isend (c : Nat) (conn : Nat) (n : Nat) (data : Bytes)   -- a send made by checkHWIdent (identification on connect)
   | idend (c : Nat) (ok : Bool)         -- checkHWIdent (with an identification configured) returned / raised
   | busy (c : Nat)                      -- check_connection: another thread is connecting right now (accessLock not free)
+  | drop (c : Nat)                      -- an update is_connected=True by c was discarded: there is no connection (IOBase.announceUpdate)
 deriving DecidableEq, Repr
 
 structure TEv where
@@ -259,11 +260,11 @@ def idNext (cfg : Cfg) (k : Caller) : Caller :=
 def extendLast (l : List Bytes) (x : Bytes) : List Bytes := l.dropLast ++ [l.getLastD [] ++ x]
 
 /-- The generated wrapper of `read_is_connected` (modulebase.py:125-141) announces the value the method returned
-(`True`) AFTER the method has returned; if another caller has detected a disconnect in between, this update sets
-`is_connected` back to true although there is no connection (finding C16:state_overwritten). -/
-def staleUpdate (s : State) (c : Nat) (k : Caller) (v : Bool) : Option State :=
-  if v = true ∧ k.viaRead = true ∧ s.isConn = false then some ({ s with isConn := true }.setC c { k with viaRead := false })
-  else none
+(`True`) AFTER the method has returned; if another caller has detected a disconnect and dropped the connection in
+between, `IOBase.announceUpdate` discards that outdated value (the repair of F39: `is_connected=True` is accepted only
+while there is a connection; before the repair this update set `is_connected` back to true for good). -/
+def staleDrop (s : State) (c : Nat) (k : Caller) : Option State :=
+  if k.viaRead = true ∧ s.conn = none then some (s.setC c { k with viaRead := false }) else none
 
 /-- after the inner lock is taken (and wait_before has been slept): `self._conn.flush_recv()` needs a connection -/
 def toFlush (s : State) (k : Caller) : Caller :=
@@ -335,8 +336,10 @@ def stepCaller (s : State) (t : Nat) (c : Nat) (e : Ev) : Option State :=
   | .chkNow, .busy _ => some (s.setC c (failTo k))   -- another thread is connecting right now: the call fails, it does not wait
   | .rcheck, .now _ t' =>     -- read_is_connected: not connected; the attempt is recorded
     if s.isConn = false ∧ t' = t then some ({ s with lastAttempt := t' }.setC c { k with pc := .connecting }) else none
-  | .rcheck, .isconn _ v =>               -- read_is_connected returned True; its wrapper announces that, too late
-    if v = true then some ({ s with isConn := true }.setC c k) else none   -- (also a re-announcement after a failed read)
+  | .rcheck, .isconn _ v =>               -- read_is_connected returned True; its wrapper announces that: a re-announcement
+    if v = true ∧ s.conn ≠ none then some ({ s with isConn := true }.setC c k) else none   -- after a failed read (identification)
+  | .rcheck, .drop _ =>                   -- doPoll: read_is_connected saw True and returned it; the connection was dropped
+    if k.kind = .poll ∧ s.conn = none then some (s.setC c k) else none   -- by another caller before its wrapper announced that: discarded
   | .rcheck, .acq _ => doAcqI s c k       -- read_is_connected returned True (on behalf of a communicate)
   | .rcheck, .ret _ res =>                -- read_is_connected returned True (doPoll)
     if k.kind = .poll ∧ res = result k then some (s.setC c { k with pc := .idle }) else none
@@ -348,7 +351,9 @@ def stepCaller (s : State) (t : Nat) (c : Nat) (e : Ev) : Option State :=
       else some ({ s with lastError := true }.setC c (rcFail k))
     else none
   | .visT, .isconn _ v =>
-    if v = true then some ({ s with isConn := true }.setC c (startIdent { s with isConn := true } k)) else none
+    if v = true ∧ s.conn ≠ none then some ({ s with isConn := true }.setC c (startIdent { s with isConn := true } k)) else none
+  | .visT, .drop _ =>     -- another caller (past its check_connection) has found the NEW connection closed and dropped it already:
+    if s.conn = none then some (s.setC c (startIdent s k)) else none    -- the state stays false, connectStart goes on
   | .cbs l, .cb _ n' keep =>
     match l with
     | [] => none
@@ -360,8 +365,8 @@ def stepCaller (s : State) (t : Nat) (c : Nat) (e : Ev) : Option State :=
           | _ :: _ => { k with pc := .cbs rest }))
       else none
   | .acqI, .acq _ => doAcqI s c k
-  | .acqI, .isconn _ v => staleUpdate s c k v
-  | .done, .isconn _ v => staleUpdate s c k v
+  | .acqI, .drop _ => staleDrop s c k
+  | .done, .drop _ => staleDrop s c k
   | .slpWB, .slp _ d =>
     if d = s.cfg.waitBefore then some (s.setC c { k with pc := .wakeWB, wakeAt := t + d }) else none
   | .wakeWB, .wake _ => if k.wakeAt ≤ t then some (s.setC c (toFlush s k)) else none
@@ -550,7 +555,7 @@ def stepCaller (s : State) (t : Nat) (c : Nat) (e : Ev) : Option State :=
 def Ev.who : Ev → Option Nat
   | .call c _ _ | .chk c _ | .now c _ | .connect c _ _ | .isconn c _ | .cb c _ _ | .acq c | .rel c
   | .slp c _ | .wake c | .flush c | .send c _ _ _ | .recv c _ | .hclose c | .ret c _
-  | .more c _ | .isend c _ _ _ | .idend c _ | .busy c => some c
+  | .more c _ | .isend c _ _ _ | .idend c _ | .busy c | .drop c => some c
   | .arrive _ _ _ | .devclose _ | .dopoll _ => none
 
 /-- one time-stamped event; the clock never runs backwards -/
